@@ -69,6 +69,10 @@ using OneLevelPGMIndex = PGMIndex<K, Epsilon, 0, Floating>;
 template<typename K, size_t Epsilon, size_t EpsilonRecursive = 4, typename Floating = float>
 class CompressedPGMIndex {
     static_assert(Epsilon > 0);
+#ifdef PGM_INDEX_VERIF
+    friend struct ::pgm::verif::Access;
+#endif
+
     struct CompressedLevel;
 
     size_t n;                             ///< The number of elements in the indexed data.
@@ -371,6 +375,10 @@ struct CompressedPGMIndex<K, Epsilon, EpsilonRecursive, Floating>::CompressedLev
 template<typename K, size_t Epsilon, size_t TopLevelSize, uint8_t TopLevelBitSize = 32, typename Floating = float>
 class BucketingPGMIndex {
 protected:
+#ifdef PGM_INDEX_VERIF
+    friend struct ::pgm::verif::Access;
+#endif
+
     static_assert(Epsilon > 0 && TopLevelSize > 0);
 
     using Segment = typename PGMIndex<K, Epsilon, 0, Floating>::Segment;
@@ -516,6 +524,10 @@ public:
 template<typename K, size_t Epsilon = 64, typename Floating = float>
 class EliasFanoPGMIndex {
 protected:
+#ifdef PGM_INDEX_VERIF
+    friend struct ::pgm::verif::Access;
+#endif
+
     static_assert(Epsilon > 0);
 
     using Segment = typename PGMIndex<K, Epsilon, 0, Floating>::Segment;
@@ -666,6 +678,10 @@ private:
 template<typename K, size_t Epsilon, size_t EpsilonRecursive = 4, typename Floating = float>
 class MappedPGMIndex : public PGMIndex<K, Epsilon, EpsilonRecursive, Floating> {
     using base = PGMIndex<K, Epsilon, EpsilonRecursive, Floating>;
+#ifdef PGM_INDEX_VERIF
+    friend struct ::pgm::verif::Access;
+#endif
+
     K *data;
     size_t file_bytes;
     size_t header_bytes;
@@ -894,6 +910,10 @@ private:
 template<uint8_t Dimensions, typename T, size_t Epsilon, size_t EpsilonRecursive = 4, typename Floating = float>
 class MultidimensionalPGMIndex {
     std::vector<T> data;
+#ifdef PGM_INDEX_VERIF
+    friend struct ::pgm::verif::Access;
+#endif
+
     PGMIndex<T, Epsilon, EpsilonRecursive, Floating> pgm;
 
     using morton = mortonnd::MortonNDBmi<Dimensions, T>;
@@ -1064,6 +1084,10 @@ private:
 
     class RangeIterator {
         using multidimensional_pgm_type = MultidimensionalPGMIndex<Dimensions, T, Epsilon, EpsilonRecursive, Floating>;
+#ifdef PGM_INDEX_VERIF
+    friend struct ::pgm::verif::Access;
+#endif
+
         using internal_iterator = typename decltype(multidimensional_pgm_type::data)::const_iterator;
 
     public:
